@@ -291,10 +291,23 @@ func vrfServer(mgr *vrfManager, maxRcpt int, defaultAccept bool) *Server {
 
 var vrfBody = []byte("Subject: hi\n\n.dot\nbody\n")
 
-// VerifC03Machine drives the real session loop with k scripted client steps chosen from the menu
-// (full != 0: whole menu, else the quick sub-menu), then EOF. cut != 0: the last step may end in a
-// disconnect in the middle of the line / message data.
-func VerifC03Machine(k int, full int, cut int) {
+// vrfPreludes are fixed (concrete) dialogue prefixes that bring the session into a later protocol
+// state before the symbolic steps begin; indices into vrfMenu.
+var vrfPreludes = [][]int{
+	{},
+	{1},             // EHLO
+	{0, 3},          // HELO, MAIL
+	{1, 3, 7},       // EHLO, MAIL, RCPT u1
+	{1, 3, 7, 8},    // EHLO, MAIL, RCPT u1, RCPT U1+x (second recipient, may hit the limit)
+	{1, 3, 7, 13},   // EHLO, MAIL, RCPT u1, DATA (then the body step)
+}
+
+// VerifC03Machine drives the real session loop: first the concrete prelude number `pre`, then k
+// scripted client steps chosen from the menu (full != 0: whole menu, else the quick sub-menu), then
+// EOF. cut != 0: the last step may end in a disconnect in the middle of the line / message data.
+func VerifC03Machine(pre int, k int, full int, cut int) {
+	prelude := vrfPreludes[pre]
+	k += len(prelude)
 	mgr := &vrfManager{failing: vrf.Bool("storeFails")}
 	maxRcpt := vrf.Int("maxRcpt", 1, 2)
 	srv := vrfServer(mgr, maxRcpt, vrf.Bool("defaultAccept"))
@@ -335,9 +348,17 @@ func VerifC03Machine(k int, full int, cut int) {
 			}
 			return vrf.Step{Kind: vrf.StepBody, Body: vrfBody}
 		}
-		sel := vrf.Fork(vrf.Choose("line"+string(rune('0'+step)), nmenu))
-		if full == 0 {
-			sel = vrfQuickMenu[sel]
+		sel := 0
+		if step <= len(prelude) {
+			if !g.expectBody {
+				sel = prelude[step-1]
+				vrf.Fork(2000 + step)
+			}
+		} else {
+			sel = vrf.Fork(vrf.Choose("line"+string(rune('0'+step-len(prelude))), nmenu))
+			if full == 0 {
+				sel = vrfQuickMenu[sel]
+			}
 		}
 		ln := vrfMenu[sel]
 		g.lastKind = ln.kind
